@@ -360,6 +360,9 @@ class TimeMonitor(object):
             exp = Fraction(r[0]) + t * (Fraction(r[1]) - Fraction(r[0]))
             # the reported domain is itself rounded to microseconds by the conversion back from milliseconds
             tol = Fraction(1, 10**9) * abs(Fraction(r[1]) - Fraction(r[0])) * (1 + abs(t)) + Fraction(1, 10**9) * (abs(Fraction(r[0])) + abs(Fraction(r[1])))
+            # the rounded a(1-t)+bt carries about one unit in the last place of the range ends per unit of |t|: visible only when
+            # the range is a few ulps wide and the instant lies millions of domain spans outside (C15 thorough tier)
+            tol += 8 * Fraction(math.ulp(max(abs(r[0]), abs(r[1])))) * (1 + abs(t))
             if abs(Fraction(y) - exp) > tol:
                 self._viol("not-affine", {"op": name, "x": x.isoformat(), "y": y, "expected": float(exp),
                                           "reported_domain": [d[0].isoformat(), d[1].isoformat()], "reported_range": list(r)})
